@@ -198,6 +198,39 @@ def run_item(item):
                             "what": f"{op} on the {'derived' if side == 'edit-derived' else 'source'} graph changed the "
                                     f"{'source' if side == 'edit-derived' else 'derived'} graph ({dname} of {U.describe(m)})",
                             "item": item, "detail": {k: {"before": before.get(k), "after": after.get(k)} for k in diff(before, after)}})
+        # two graphs derived from the same source by the same operation are independent of each other as well (a derivation
+        # that hands out a cached / shared object would pass the source-vs-derived test)
+        for dname in derivations(m.kind):
+            try:
+                src = U.build(m)
+                d1 = derive(src, dname)
+                d2 = derive(U.build(m), dname) if dname == "json" else derive(src, dname)
+            except Exception:
+                continue
+            md = U.from_real(d1)
+            if d1 is d2:
+                out["viol"].append({"sig": f"C10/{E.SHORT[m.kind]}/{dname}/siblings/same-object", "input": U.key(m),
+                                    "what": f"{dname} applied twice returned the very same object ({U.describe(m)})", "item": item,
+                                    "detail": None})
+                continue
+            for op in edits(md)[:: 3]:
+                src = U.build(m)
+                d1 = derive(src, dname)
+                d2 = derive(U.build(m), dname) if dname == "json" else derive(src, dname)
+                before = norm(snap(d2))
+                try:
+                    OPS.apply_real(d1, op)
+                except Exception:
+                    continue
+                after = norm(snap(d2))
+                out["evals"] += 1
+                out["distinct"] += 1
+                oc["siblings"] = oc.get("siblings", 0) + 1
+                if before != after:
+                    out["viol"].append({"sig": f"C10/{E.SHORT[m.kind]}/{dname}/{op[0]}/siblings/{'+'.join(diff(before, after))}",
+                                        "input": U.key(m),
+                                        "what": f"{op} on one {dname} of {U.describe(m)} changed a second {dname} of the same graph",
+                                        "item": item, "detail": None})
         if not out["samples"]:
             out["samples"].append({"source": U.describe(m), "derivations": derivations(m.kind), "n_edits": len(edits(m))})
     return out
